@@ -526,7 +526,7 @@ def finish(ctx, level, rule, assumptions, coverage_extra=None, exhaustive=False)
         "violations": len(new),
     }
     # the listed properties write /verif/evidence/<id>.json; extension checks (X..: behaviour beyond the list) write evidence-ext/
-    evdir = os.path.join(ROOT, "evidence-ext" if ctx.pid.startswith("X") else "evidence")
+    evdir = os.environ.get("VERIF_EVIDENCE") or os.path.join(ROOT, "evidence-ext" if ctx.pid.startswith("X") else "evidence")
     os.makedirs(evdir, exist_ok=True)
     tmp = os.path.join(evdir, ".%s.json.%d" % (ctx.pid, os.getpid()))
     json.dump(ev, open(tmp, "w"), indent=1, sort_keys=True)
